@@ -10,6 +10,8 @@ fn main() {
         "c15_get_providers" => c15_get_providers(&mut nd),
         "c15_find_node" => c15_find_node(&mut nd),
         "c04_identity_receive" => c04_identity_receive(&mut nd),
+        "c03_webrtc_negotiation" => c03_webrtc_negotiation(&mut nd),
+        "c19_length_delimited" => c19_length_delimited(&mut nd),
         "c04_varint_receive" => c04_varint_receive(&mut nd),
         "c04_sink_flush" => c04_sink_flush(&mut nd),
         "c10_store_insert" => c10_store_insert(&mut nd),
